@@ -1,5 +1,32 @@
 """C12 — runtime documents are the source operation plus exactly the fragments it needs."""
+import os
+import shutil
+
 import vlib
+
+LOADER_PKG = "c12-loader"
+
+
+def loader_build(ctx, timeout=1500):
+    """harness/c12-loader: the loader's main.rs compiled unmodified as an rlib + a one-request driver (own
+    workspace; target dir shared with the other loader shims so the dependency artefacts are reused)."""
+    vlib._prepare_alt_harness()
+    pkg = os.path.join(vlib.HARNESS, LOADER_PKG)
+    lock_src = os.path.join(vlib.REPO, "Cargo.lock")
+    lock_dst = os.path.join(pkg, "Cargo.lock")
+    if not os.path.exists(lock_dst):
+        shutil.copyfile(lock_src, lock_dst)
+    target = vlib.TARGET + "-loader"
+    env = dict(vlib.CARGO_ENV, CARGO_TARGET_DIR=target)
+    cmd = ["timeout", str(timeout), "cargo", "build", "--offline", "--bin", "c12loader"]
+    rc, out = vlib.sh(cmd, cwd=pkg, env=env)
+    if rc != 0 and "Cargo.lock" in out:
+        shutil.copyfile(lock_src, lock_dst)
+        rc, out = vlib.sh(cmd, cwd=pkg, env=env)
+    if rc != 0:
+        ctx.log("c12-loader build FAILED")
+        ctx.log(out[-3000:])
+    return rc == 0, os.path.join(target, "debug", "c12loader")
 
 KNOWN = set()   # no known finding is left for C12 (see findings/fixed.json: c0c1a59, c67e45e)
 
@@ -28,6 +55,12 @@ def replay(ctx, path):
 
 
 def run(ctx, harness_extra=()):
+    ok, loader = loader_build(ctx)
+    if ok:
+        harness_extra = list(harness_extra) + ["--loader", loader]
+    else:
+        vlib.violation(ctx, "the loader (crates/graphql-loader) does not build as a library: the loader route of C12 cannot be observed",
+                       {"stage": "loader-build"}, found_input=False)
     return vlib.standard_check(
         ctx,
         targets=["C12/Properties.vo", "C12/Corr.vo"],
@@ -43,6 +76,12 @@ def run(ctx, harness_extra=()):
             "(no function of C12/Model.v reads a position); parsing itself is C07's subject",
             "specification side (C12/Spec.v): my reading of RFC 8259 (jparse) and of graphql-js language/ast.ts (toModel); "
             "C12_parse_ser proves jparse inverts the model's serializer, C12_to_json_roundtrip proves toModel inverts to_json",
+            "the loader route: harness/c12-loader compiles /repo/crates/graphql-loader/src/main.rs unmodified as an rlib and a child process per "
+            "document performs initiate_task / get_required_files / load_file / emit_js as loader-core's task.ts does (that TypeScript glue is not "
+            "executed); the runtime documents are read off the module text as the right-hand sides of the `const NAME = …;` lines",
+            "C12_checked_document_denotes rests on C03's model of check_operation_document (coq/C03/Model.v, tied to the real checker by C03's "
+            "own correspondence run) through C03_accepted_fields_and_fragments_defined; this run additionally tests 'real check accepts implies "
+            "spreads_defined_b' on every accepted document",
             "the harness re-assembles each emitted text from a per-case table of its top-level definition objects (lossless, verified in the "
             "harness before writing; C12/Corr.v:decode_text)",
         ],
